@@ -105,4 +105,105 @@ TEXTS['C01'] = {
     'technique': "Lean 4 proof (list induction over slices / read loop) + differential correspondence + end-to-end oracle",
 }
 
+M2_NOTE = ("Modelled, not verified: CPython threading primitives and ThreadPoolExecutor/Future as the cooperative shims "
+           "implement them; S3/botocore as the fake service; only thread switches at shim operations are explored. ")
+
+TEXTS['C03'] = {
+    'text': "Partial proof. Lean theorems over every run of the transfer model Xfer (uploads, copies, deletes: all "
+            "interleavings, any placement of request failures and cancels, any number of parts): success implies the final "
+            "request and every other request succeeded (no false success), a failed request is recorded before its task "
+            "ends and makes the transfer done, failed/cancelled statuses have a real cause; download retry bounds and "
+            "'non-retryable is never retried' from the Download model; coordinator consistency from C17. The model is tied "
+            "to the code by trace validation: the observed event sequence of every upload/copy/delete run under the "
+            "deterministic scheduler must be a run of the model. Not modelled (explorer oracles only): downloads through the "
+            "manager, callback and file-system faults, pairs of faults.",
+    'note': COMMON_NOTE + M2_NOTE,
+    'technique': "Lean 4 proof (inductive invariants over a transition system) + trace validation under a deterministic scheduler + fault-injection explorer",
+}
+TEXTS['C04'] = {
+    'text': "Partial proof. Lean: a stage (bounded FIFO executor, k>=1 workers, tasks waiting only for earlier tasks) is never "
+            "stuck while work is left (any number of tasks, capacities, workers), every event decreases a measure, permits "
+            "return at quiescence; the sliding-window semaphore never loses a wake-up (C12); in the transfer model the final "
+            "task's announcement is enabled as soon as its dependencies ended. The composition of the three stages with nested "
+            "submission is not proved: the explorer runs the real manager under the deterministic scheduler (which knows who "
+            "is blocked on what, so deadlock and livelock are detected exactly) over all small limit settings, faults, "
+            "cancels and re-entrant subscribers. Defect D3 was found there and repaired.",
+    'note': COMMON_NOTE + M2_NOTE + "OS-level starvation and blocking inside real sockets are outside the model.",
+    'technique': "Lean 4 proof (stage progress + measure, semaphore invariant) + trace validation + deadlock-detecting scheduler exploration",
+}
+TEXTS['C05'] = {
+    'text': "Lean theorems over every run of the transfer model Xfer: the abort begins only when no request of the upload is in "
+            "flight, no request begins after the abort, at most one abort and only for an id the library received, an aborted "
+            "upload is never reported as success, a non-successful transfer with a registered id has its abort issued and "
+            "returned before the done callbacks run, one request per task and one final (complete) task. The plan facts "
+            "(complete is the only final task and waits for create and all parts) are re-read from the source. Tied to the "
+            "code by trace validation of every upload/copy run; the explorer judges the same statement directly on the fake "
+            "service's per-upload log (faults before/after effect, cancels, all schedules). Partial: the legacy "
+            "MultipartUploader is not modelled (D8 observation).",
+    'note': COMMON_NOTE + M2_NOTE,
+    'technique': "Lean 4 proof (inductive invariants over a transition system) + trace validation + explorer oracle",
+}
+TEXTS['C06'] = {
+    'text': "Lean theorems over every run (hence every prefix = crash point) of the file-system model of a download to a path: "
+            "the destination holds previous-or-complete content at all times, a failure keeps the previous content, a cancel "
+            "yields previous or (only after the rename) complete, no temporary file after rename/cleanup, no write after the "
+            "cleanup, publication only when every queued write was executed. Partial: the model's guards (rename is the final "
+            "io task, runs only when nothing failed and all writes ran) are mechanisms established by C10 FIFO / Xfer-style "
+            "reasoning and not derived from one combined model; the explorer inspects the real directory at every "
+            "scheduling point of every run (manager) and judges the legacy front end sequentially; the process pool is under C19.",
+    'note': COMMON_NOTE + M2_NOTE + "POSIX rename atomicity is assumed.",
+    'technique': "Lean 4 proof (invariant over an event model) + explorer with directory inspection at every scheduling point",
+}
+TEXTS['C07'] = {
+    'text': "Lean theorems: a cancel on an unfinished transfer stores the given error and makes it cancelled (Coord), the status "
+            "then stays cancelled or becomes success only through the final step (Xfer, all continuations), a transfer "
+            "cancelled before it started never issues a request nor runs on_queued and is announced by the canceller, a "
+            "finished transfer keeps its result, success under a racing cancel means every request succeeded, a cancelled "
+            "multipart upload is aborted before its done callbacks. Partial: the four entry points (message / exception type "
+            "passed by shutdown, __exit__, Ctrl-C) are judged by the explorer at every scheduling point; defect D1 was found "
+            "there and repaired.",
+    'note': COMMON_NOTE + M2_NOTE,
+    'technique': "Lean 4 proof (coordinator state machine + transfer transition system) + trace validation + explorer oracle",
+}
+TEXTS['C08'] = {
+    'text': "Lean theorems over every run of the transfer model, including two concurrent announcers (cancel racing the "
+            "submission thread): the done callbacks run at most once and never again, and when they run the outcome is final, "
+            "the done event is set, no request and no abort is in flight; no request can begin after on_done; on_queued is "
+            "never enabled once a request was issued nor for a transfer cancelled before starting. Tied to the code by trace "
+            "validation (uploads, copies, deletes). Partial: 'exactly once' needs termination (C04); isolation of a raising "
+            "on_done, the suppressed HeadObject and downloads are judged by the explorer.",
+    'note': COMMON_NOTE + M2_NOTE,
+    'technique': "Lean 4 proof (inductive invariants with lock-protected callback lists) + trace validation + explorer oracle",
+}
+TEXTS['C10'] = {
+    'text': "Lean theorems over every run of a stage (any capacity, worker count, number of submitters): running tasks <= "
+            "threads, queued+running <= permits and free+queued+running = permits, a submitter is blocked (not failed, not "
+            "overrunning) while no permit is free, tasks start in FIFO order; which configuration value feeds which stage, the "
+            "single io thread and the tag semaphores are regenerated from TransferManager.__init__ and checked by decide. "
+            "Tied to the code by trace validation of the submit/pick/finish events of all three stages; the explorer measures "
+            "in-flight requests and exact per-semaphore occupancy on the real manager.",
+    'note': COMMON_NOTE + M2_NOTE,
+    'technique': "Lean 4 proof (permit invariant over a transition system) + translator for wiring + trace validation + explorer oracle",
+}
+TEXTS['C11'] = {
+    'text': "Lean theorems: stream-upload buffers <= max_in_memory_upload_chunks + max_submission_concurrency (stage permits "
+            "plus one per submission thread), for every tag the sliding window spans at most max_in_memory_download_chunks "
+            "tokens (from the C12 capacity equation), pending writes <= max_io_queue_size and each chunk <= io_chunksize. "
+            "The explorer observes buffers through OSUtils and the window through the GET log. Partial: buffer *sizes* hold "
+            "for the effective part size only: D14 (adjusted 5 MiB parts above the configured values) and D16 (a short first "
+            "read of an unknown-size stream buffers the whole stream) are recorded findings.",
+    'note': COMMON_NOTE + M2_NOTE + "Memory as the allocator sees it is not observable.",
+    'technique': "Lean 4 proof (corollaries of the permit and sliding-window invariants) + trace validation + explorer oracle",
+}
+TEXTS['C18'] = {
+    'text': "Lean theorems: after a stage's join every submitted task has ended and no event of the stage is enabled, join is "
+            "not enabled while work is left (however many transfers failed), the three executors are joined in the order "
+            "submission, request, io (read from the source); permits are conserved, so after any mix of finished transfers "
+            "all semaphores are full (reusable). Partial: isolation is a structural argument (transfers share only permits and "
+            "threads) plus the explorer's oracle (a transfer nothing happened to must succeed with the right bytes among "
+            "failing/cancelled neighbours; a fresh transfer afterwards succeeds; nothing happens after shutdown returned).",
+    'note': COMMON_NOTE + M2_NOTE,
+    'technique': "Lean 4 proof (stage with shutdown/join, permit conservation) + trace validation + explorer oracle",
+}
+
 NOT_APPLICABLE = []
